@@ -184,7 +184,7 @@ type outcome struct {
 
 func (rn *runner) newServer(dir string, worker, cpus int) *proc.Server {
 	return proc.New(proc.Config{BGOff: true, Bin: rn.bin, Dir: dir, IP: proc.IP(1, worker), CPUs: cpus, FS: true, FSMatch: "/data/",
-		Extra: map[string][]string{"data": {`write-cold-duration = "1h"`}}})
+		Extra: map[string][]string{"data.memtable": {`write-cold-duration = "1h"`, `force-snapShot-duration = "1h"`}}})
 }
 
 // applyStep sends one step; returns acked, and transport failure (outcome unknown).
